@@ -54,6 +54,7 @@ def parseVal (s : String) : Option (Option (Val F64)) :=   -- none = bad token; 
   else if s == "b:f" then some (some (.bool false))
   else match s.toList with
     | 's' :: ':' :: rest => (unhex (String.ofList rest)).map (fun t => some (.str t))
+    | 'i' :: ':' :: rest => (String.ofList rest).toInt?.map (fun n => some (.num (F64.of (Float.ofInt n))))
     | _ => (parseF s).map (fun x => some (.num x))
 
 def showVal : Val F64 → String
@@ -207,6 +208,36 @@ def hasTies (q : Query F64) (rows : List (Spec.SRow F64)) : Bool :=
     | r :: rs => rs.any (fun s => !Spec.specLess f64 q r s && !Spec.specLess f64 q s r) || go rs
   go rows
 
+/-- `sort n ncols col… cell…`: rows with an `id` column (their input position) -/
+def parseSortOp (toks : List String) : Option (List (Spec.SRow F64)) := do
+  match toks with
+  | n :: nc :: rest =>
+    let n ← parseNat n
+    let nc ← parseNat nc
+    let cols ← (rest.take nc).mapM unhex
+    let cells ← (rest.drop nc).mapM parseVal
+    if cells.length != n * nc then none
+    some ((List.range n).map fun r =>
+      (['i', 'd'], Val.num (F64.of (Float.ofNat r))) ::
+        ((cols.zip ((cells.drop (r * nc)).take nc)).filterMap fun (c, v) => v.map fun v => (c, v)))
+  | _ => none
+
+def rowId (r : Spec.SRow F64) : Nat :=
+  match lookupIn ['i', 'd'] r with
+  | some (.num x) => x.f.toUInt64.toNat
+  | _ => 0
+
+/-- oracle for the sorter alone: a permutation, sorted, ties in input order -/
+def stableSortedIds (less : Spec.SRow F64 → Spec.SRow F64 → Bool) (rows : List (Spec.SRow F64)) (ids : List Nat) : Option String :=
+  let n := rows.length
+  if ids.length != n || !(List.range n).all (fun i => ids.contains i) then some "not-a-permutation" else
+  let out := ids.filterMap fun i => rows[i]?
+  if !Spec.sortedBy less out then some "not-sorted" else
+  let rec ties : List (Spec.SRow F64) → Bool
+    | [] => true
+    | x :: xs => xs.all (fun y => less x y || rowId x < rowId y) && ties xs
+  if !ties out then some "ties-not-in-input-order" else none
+
 def run (c : Case) : CaseOut := Id.run do
   match parseCfg c with
   | none => return { obs := c.ops.map fun _ => [["bad-cfg"]], spec := "fail:bad-cfg" }
@@ -268,6 +299,25 @@ def run (c : Case) : CaseOut := Id.run do
               match Spec.validClause f64 q gs srows with
               | some cl => spec := "fail:" ++ cl
               | none => pure ()
+    | "sort" :: rest =>
+      match parseSortOp rest with
+      | none => obs := obs ++ [[["bad-op"]]]
+      | some rows =>
+        let less := Spec.specLess f64 q
+        let out := sortBy less rows
+        obs := obs ++ [[("order" :: out.map (fun r => toString (rowId r)))]]
+        tags := addTag tags "sorter"
+        if q.orderBy.any (fun (k, _) => rows.any (fun r => (lookupIn k r).isNone) && rows.any (fun r => (lookupIn k r).isSome)) then
+          tags := addTag tags "sorter-missing-and-present"
+        if hasTies q rows then tags := addTag tags "sorter-ties"
+        if mixedKinds q rows then tags := addTag tags "mixed-key-kinds"
+        if spec == "ok" then
+          match implObs with
+          | [("order" :: ids)] =>
+            match stableSortedIds less rows (ids.filterMap parseNat) with
+            | some cl => spec := "fail:sorter-" ++ cl
+            | none => pure ()
+          | _ => spec := "fail:sorter-no-output"
     | _ => obs := obs ++ [[["bad-op"]]]
   let cls := "none"
   return { obs := obs, spec := spec, cls := cls, tags := tags }
